@@ -396,8 +396,8 @@ func firstToken(item string) (found, newlineBefore, prefixOnLine bool, lineEnd i
 
 // knownShape returns the id of the registered (status known) finding whose shape the case has.
 func knownShape(c SrcCase) string {
-	if c.Path == "eval" {
-		return ""
+	if c.Path == "eval" || os.Getenv("VERIF_NO_EXCLUSIONS") != "" {
+		return "" // VERIF_NO_EXCLUSIONS=1: validate a fix patch in a scratch tree before the finding is re-registered as fixed
 	}
 	firstCode := -1
 	for i, it := range c.Items {
